@@ -72,6 +72,64 @@ PROPS = {
         streams=[stream('union', 'whole', kinds=('union',), faults=0.3)],
         k2=['union'],
     ),
+    'C09': dict(
+        title='Deref and DerefMut expose exactly the designated field',
+        theorems=[],
+        streams=[stream('deref', 'items:Deref,DerefMut', force=['Deref'], kinds=('struct', 'enum')),
+                 stream('derefmut', 'items:Deref,DerefMut', force=['Deref', 'DerefMut'], kinds=('struct', 'enum'), n=(800, 15000))],
+        k2=['deref'],
+    ),
+    'C10': dict(
+        title='Into returns the designated field for every requested target type',
+        theorems=[],
+        streams=[stream('into', 'items:Into', force=['Into'], kinds=('struct', 'enum'))],
+        k2=['into'],
+    ),
+    'C11': dict(
+        title='Automatic bounds are exactly those the generated code needs',
+        theorems=[],
+        streams=[stream('hdr_auto', 'headers', kinds=('struct', 'enum', 'union'), faults=0.0, n=(3000, 50000))],
+    ),
+    'C12': dict(
+        title="Explicit bound modes and the type's own generics are honoured verbatim",
+        theorems=[],
+        streams=[stream('hdr', 'headers', kinds=('struct', 'enum', 'union'), faults=0.0, n=(3000, 50000))],
+    ),
+    'C13': dict(
+        title='Contradictory, ambiguous or misplaced attributes are rejected, not guessed',
+        theorems=[],
+        streams=[stream('invalid', 'outcome', faults=0.9, n=(4000, 60000))],
+    ),
+    'C14': dict(
+        title='Alternative attribute spellings are interchangeable',
+        theorems=[],
+        streams=[stream('spell', 'whole', faults=0.0, n=(1500, 20000))],
+        direct=('c14', (700, 8000)),
+    ),
+    'C15': dict(
+        title="Each trait's impl depends only on that trait's own attributes",
+        theorems=[],
+        streams=[stream('multi', 'whole', faults=0.0, n=(1500, 20000))],
+        direct=('c15', (500, 6000)),
+    ),
+    'C16': dict(
+        title='Expansion is deterministic',
+        theorems=['C16_scan_order_irrelevant', 'C16_unordered_iterations_reviewed', 'C16_hash_containers_reviewed', 'C16_no_ambient_inputs'],
+        streams=[stream('order', 'skeleton', faults=0.1, n=(2000, 30000))],
+        direct=('c16', (1500, 20000)),
+    ),
+    'C17': dict(
+        title='The macro is total: it never panics, aborts or hangs',
+        theorems=['C17_no_panic', 'C17_no_panic_flat', 'C17_outcomes', 'C17_ok_nonempty', 'C17_inventory_matches'],
+        streams=[stream('malformed', 'outcome', faults=0.9, n=(3000, 50000), errkind=False)],
+        direct=('c17', (3000, 60000)),
+    ),
+    'C18': dict(
+        title='Every subset of trait features builds and behaves like the full build',
+        theorems=['C18_refs_enabled', 'C18_empty_refused', 'C18_scan_complete', 'C18_disabled_rejected'],
+        streams=[],
+        direct=('c18', (10, 4095)),
+    ),
 }
 
 def gen_cases(st, seed, n):
@@ -163,6 +221,16 @@ def run_check(pid, tier, seed):
             k2_stats = dict(skipped='k2 not built yet')
     for f in k2_failures:
         report.fail(f['key'], f['what'], f, found_input=True)
+    direct_stats = {}
+    if P.get('direct'):
+        import direct
+        name, sizes = P['direct']
+        dfails, kdiffs, direct_stats = getattr(direct, name)(seed, sizes[0 if tier == 'quick' else 1])
+        for f in dfails:
+            report.fail(f['key'], f['what'], f, found_input=True)
+            k2_failures.append(f)
+        report.k1_diffs.extend(kdiffs)
+        evaluations += direct_stats.get('pairs', direct_stats.get('cases', 0)) or sum(v for v in direct_stats.values() if isinstance(v, int))
     # a broken correspondence without a failing input is still a violation
     if report.k1_diffs and not k2_failures:
         d0 = report.k1_diffs[0]
@@ -170,15 +238,15 @@ def run_check(pid, tier, seed):
                     % (len(report.k1_diffs), d0['detail'][:300]),
                     dict(correspondence='K1 ' + d0['stream'], cases=report.k1_diffs[:5]), found_input=False)
     rc = report.finish()
-    n_obl = len(obl) + len(P['streams'])
-    n_ok = sum(1 for o in obl if o['ok']) + sum(1 for st in P['streams'] if not [d for d in report.k1_diffs if d['stream'] == st['name']])
+    n_obl = len(obl) + len(P['streams']) + (1 if P.get('direct') else 0)
+    n_ok = sum(1 for o in obl if o['ok']) + sum(1 for st in P['streams'] if not [d for d in report.k1_diffs if d['stream'] == st['name']]) + (1 if P.get('direct') and not [f for f in k2_failures if str(f.get('key', '')).startswith('c1')] else 0)
     cov = dict(obligations=max(1, n_obl), discharged=n_ok,
                checker_cmd='./build.sh (coq_makefile + make: full .vo build) ; coqc _build/obl_%s.v (Print Assumptions) ; tools/k1.py view=%s' % (pid, ','.join(st['view'] for st in P['streams'])),
                trusted_base=vlib.TRUSTED_BASE,
                theorems=[dict(name=o['name'], closed=o['ok'], axioms=o['axioms']) for o in obl],
                evaluations=evaluations, distinct_nontrivial=distinct,
                rule='K1: seeded structured derive inputs (valid + one-invalid-construct); distinct_nontrivial = number of distinct non-empty real expansions',
-               k1=dict((k, v) for k, v in sorted(stats.items())), k2=k2_stats,
+               k1=dict((k, v) for k, v in sorted(stats.items())), k2=k2_stats, direct=direct_stats,
                samples=samples or [dict(note='no sample')])
     vlib.write_evidence(pid, tier, seed, 'proof', cov,
                         ['field types and user methods are arbitrary (universally quantified interp)',
